@@ -52,6 +52,15 @@ def gen(rng, i, tier):
             if not t['before']:
                 t['before'] = [fresh()]
     c['history'] = [(0, e, a) for (k, e, a) in c['history']]
+    if i % 6 == 3:
+        # invalid / unknown events in (nested) parallel configurations with per-state ignore flags:
+        # MachineError / AttributeError / False must depend on ALL active leaves
+        for p, d in hsm.all_defs(c['machine']):
+            if len(d['children']) >= 2:
+                d['initial'] = [x['name'] for x in d['children']]
+            d['ignore'] = rng.choice([True, True, False, None])
+        c['machine']['ignore'] = rng.random() < 0.5
+        c['history'] = [(0, rng.choice([0, 1, 7, 8]), 100 + j) for j in range(rng.randint(2, 5))]
     c['cls'] = CLASSES[i % len(CLASSES)]
     c['mixed'] = mixed
     return c
